@@ -94,8 +94,12 @@ def _verbosity(main):
     return v
 
 
+_derived = {}
+
+
 def eval_with(e, vid, val):
-    """evaluate a condition that only involves variable vid (=val) and integer constants; None if other things are read"""
+    """evaluate a condition that only involves variable vid (=val), const locals derived from it, and integer
+    constants; None if other things are read"""
     e = unwrap(e)
     if not isinstance(e, dict):
         return None
@@ -103,6 +107,8 @@ def eval_with(e, vid, val):
     if k == "ref":
         if e.get("id") == vid:
             return val
+        if e.get("id") in _derived:
+            return eval_with(_derived[e["id"]], vid, val)
         if "iv" in e:
             return e["iv"]
         return None
@@ -143,6 +149,15 @@ def k1(prog):
     if optloop is None:
         raise Broken("option loop (getopt_long) not found in main()")
     exempt = {id(y) for y in walk(optloop)}
+    # const locals initialised from an expression of `verbosity` only (e.g. `bool const quiet = verbosity < 0;`)
+    _derived.clear()
+    assigned = {unwrap(x["lhs"]).get("id") for x in walk(main["body"]) if x.get("k") == "asg" and isinstance(unwrap(x["lhs"]), dict)}
+    for x in walk(main["body"]):
+        if x.get("k") == "decl":
+            for d in x["vars"]:
+                if d.get("init") is not None and d["id"] not in assigned and d["id"] != v["id"] and \
+                   eval_with(d["init"], v["id"], -1) is not None and eval_with(d["init"], v["id"], 0) is not None:
+                    _derived[d["id"]] = d["init"]
     g = CFG(main)
 
     def edge_ok(n, t, lab):
